@@ -906,7 +906,9 @@ func splitterAtomicCase(c *Case) Verdict {
 	states := append([]Snap{}, inc.Snaps...)
 	states = append(states, Snap{Root: inc.Sim.FS.Root, JSeq: 1 << 30})
 	for _, sn := range states {
-		for p, e := range WorkFiles(sn.Root) {
+		wf4 := WorkFiles(sn.Root)
+		for _, p := range sortedKeys(wf4) {
+			e := wf4[p]
 			if e.Kind != simrt.KFile || underTmp(p) || !isPart(p) {
 				continue
 			}
@@ -926,7 +928,9 @@ func splitterAtomicCase(c *Case) Verdict {
 	for _, sn := range inc.Snaps {
 		c.CrashStates++
 		c.Fault("kill@state")
-		for p, e := range WorkFiles(sn.Root) {
+		wf5 := WorkFiles(sn.Root)
+		for _, p := range sortedKeys(wf5) {
+			e := wf5[p]
 			if e.Kind != simrt.KFile || underTmp(p) || !isPart(p) {
 				continue
 			}
